@@ -47,7 +47,7 @@ def main():
     ap.add_argument("-j", type=int, default=2)
     a = ap.parse_args()
     ids = sorted(x for x in os.listdir(os.path.join(HERE, "seeded")) if os.path.exists(os.path.join(HERE, "seeded", x, "meta.json"))
-                 and not json.load(open(os.path.join(HERE, "seeded", x, "meta.json"))).get("status", "").startswith("neutralised"))
+                 and not json.load(open(os.path.join(HERE, "seeded", x, "meta.json"))).get("status", "").startswith(("neutralised", "out-of-model")))
     if a.id:
         ids = [x for x in ids if x in a.id.split(",")]
     bad = 0
